@@ -1537,6 +1537,34 @@ func ruleC12Diags(c *Checker) {
 				}
 			}
 		})
+		// ... on the name as the finder wrote it: a cleaned or otherwise normalised copy passes the validity test for
+		// names that are not package-relative at all (a source address loses the doubled slash that made it invalid)
+		asWritten := true
+		for fnx := range p.family(src) {
+			eachInstr(fnx, func(in ssa.Instruction) {
+				cl, ok := in.(*ssa.Call)
+				if !ok || cl.Common().StaticCallee() == nil {
+					return
+				}
+				var arg ssa.Value
+				switch cl.Common().StaticCallee().Name() {
+				case "ValidSubPath":
+					arg = cl.Call.Args[0]
+				case "SourceAddr":
+					arg = cl.Call.Args[len(cl.Call.Args)-1]
+				default:
+					return
+				}
+				for w := range p.backSlice(arg, 0) {
+					if tc, isCall := w.(*ssa.Call); isCall {
+						if o := calleeObj(tc); o != nil && (objPkgPath(o) == "path" || objPkgPath(o) == "path/filepath" || objPkgPath(o) == "strings") {
+							asWritten = false
+						}
+					}
+				}
+			})
+		}
+		c.check(asWritten, R, p.FuncName(src), "file name judged and rewritten as written", p.Pos(src.Pos()), "ValidSubPath and SourceAddr get the range's Filename itself", "the file name is normalised (path.Clean, a trim) before it is judged package-relative and rewritten: a name that is a source address or URL loses the doubled slash that made it invalid and is rewritten as if it were a path inside the analysed package")
 		c.check(guardedRewrite, R, p.FuncName(src), "rewrite guarded by ValidSubPath", p.Pos(src.Pos()), "SourceAddr (which panics on invalid sub-paths) is called only for valid package-relative names", "a file name that is not a valid sub-path reaches SourceAddr, which panics")
 	}
 }
